@@ -497,7 +497,9 @@ def _handler_raises_yaml(repo, func, h):
 def _handler_recovers(h):
     """a handler that neither re-raises something else nor swallows silently: it computes a fallback
     (the reader's refill in peek)."""
-    return any(isinstance(s, ast.Return) for s in h.body) and not any(isinstance(s, ast.Raise) for s in h.body)
+    if any(isinstance(x, ast.Raise) for s in h.body for x in ast.walk(s)):
+        return False
+    return any(isinstance(x, (ast.Return, ast.Assign, ast.AugAssign)) for s in h.body for x in ast.walk(s))
 
 
 # ------------------------------------------------------------------------------------------------
@@ -583,6 +585,10 @@ def judge_site(repo, J, site, ctx_assume, indent_pairing_ok=None):
             edges = J.g_in(base, key)
             if edges and J.guarded_by_edges(n, edges):
                 return ('guarded', 'G-in (%s in %s)' % (norm(key), bt))
+            # look-up inside `try: ... except KeyError:` whose handler computes the fallback (EAFP form of the membership test)
+            g = J.g_try(site, ['KeyError'])
+            if g:
+                return ('guarded', g)
             if J.g_iter(site, base, key):
                 return ('guarded', 'G-iter (key drawn from %s)' % bt)
         if kind in ('list', 'str', 'bytes') or kind is None:
